@@ -10,6 +10,7 @@ CONSTANTS
   Clash = {"no", "derived"}
   DDs = {"none", "plain", "diamond"}
   DDVft = {"no", "yes", "flat"}
+  B1Names = {"b1", "_b1"}
   Ptrs = {4, 8}
   Lead = {FALSE, TRUE}
   EmptyBlocks = {FALSE, TRUE}
